@@ -22,6 +22,7 @@ FLAVOURS = {
 
 FAMILIES = {
     "lrcow": {"src": "lrcow.cpp"},
+    "locks": {"src": "locks.cpp"},
 }
 
 EXPLORATION_NOTE = ("Trusted base: the vrt runtime's model of std::mutex/timed_mutex/shared_mutex/shared_timed_mutex/condition_variable/atomic "
@@ -29,6 +30,43 @@ EXPLORATION_NOTE = ("Trusted base: the vrt runtime's model of std::mutex/timed_m
                     "schedules generated; nothing is proved.")
 
 PROPS = {
+    "C01": {
+        "level": "exploration",
+        "technique": "property-based testing over (wrapper config x client program x schedule) on a deterministic fiber runtime; oracle = happens-before monitor + last-write/lost-update model + deadlock and leaked-lock detection",
+        "design_ref": "DESIGN.md §5 C01",
+        "text": "Generated clients mix lock/try_lock/try_lock_for/until/load/store/operator=/modify on guarded, guarded_opt, shared_guarded, shared_guarded_opt and ordered_guarded over all four "
+                "mutex types, under generated schedules with modelled mutexes. A vector-clock monitor flags any unordered pair of payload accesses, a last-write model flags lost updates and stale "
+                "reads, the scheduler flags deadlock, and a final acquisition flags leaked locks. Exploration within the generated bound.",
+        "assumptions": ["vrt mutex model follows [thread.mutex]: non-recursive, no fairness, try_lock never fails spuriously", "programs bounded to 4 fibers x 4 (quick) / 6 (thorough) operations"],
+        "stages": [{"family": "locks", "flavour": "plain", "target": "C01", "cases": (400000, 6000000), "maxsec": (40, 400)}],
+    },
+    "C02": {
+        "level": "exploration",
+        "technique": "property-based testing over (wrapper config x reader/writer program x schedule); oracle = happens-before monitor, no-write-while-shared-handle-alive invariant, two-reader rendezvous must complete, try_lock_shared must succeed among readers",
+        "design_ref": "DESIGN.md §5 C02",
+        "text": "Generated reader/writer clients on shared_guarded, shared_guarded_opt, ordered_guarded (and deferred_guarded in its own stage) over four mutex types. The HB monitor and a live-handle "
+                "invariant decide 'readers and writers never overlap'; generated two-reader rendezvous pairs and the model mutex's ground truth decide 'readers can share'. Exploration only.",
+        "assumptions": ["vrt shared-mutex model follows [thread.sharedmutex]", "programs bounded to 4 fibers x 4/6 operations"],
+        "stages": [{"family": "locks", "flavour": "plain", "target": "C02", "cases": (400000, 6000000), "maxsec": (40, 400)}],
+    },
+    "C08": {
+        "level": "exploration",
+        "technique": "property-based testing over (wrapper config x enable flag x holder/contender program with handle life cycles x schedule and time-outs); oracle = model mutex ownership ground truth at every return, zero-mutex-ops in disabled mode, livelock detector for blocking try calls",
+        "design_ref": "DESIGN.md §5 C08",
+        "text": "Every try/timed acquisition form and handle life cycle (destroy, unlock, move-construct, move-assign) is generated against holders that keep the lock while a contender is inside a try call. "
+                "Handle truthiness is compared with the modelled mutex's owner at each return; disabled mode must execute no mutex operation; a try call that blocks shows up as livelock. Exploration only.",
+        "assumptions": ["time-outs are generated data: a timed wait gives up after a generated number of scheduler steps (at most 80)", "truthiness of moved-from handles is not asserted"],
+        "stages": [{"family": "locks", "flavour": "plain", "target": "C08", "cases": (400000, 6000000), "maxsec": (40, 400)}],
+    },
+    "C15": {
+        "level": "exploration",
+        "technique": "property-based testing over (operation history x schedule); oracle = sequential register model in execution order (every read returns the latest write, every RMW uninterrupted) and WGL linearizability search on recorded histories",
+        "design_ref": "DESIGN.md §5 C15",
+        "text": "Generated load/store/assignment/exchange/compare_exchange histories on atomic_guarded and load/store/assignment on guarded, guarded_opt, ordered_guarded, deferred_guarded under generated "
+                "schedules; a Tracked payload makes torn copies observable. Exploration only.",
+        "assumptions": ["values from a small domain", "2-4 fibers x <= 6 operations"],
+        "stages": [{"family": "locks", "flavour": "plain", "target": "C15g", "cases": (300000, 4000000), "maxsec": (40, 400)}],
+    },
     "C03": {
         "level": "exploration",
         "technique": "property-based testing over (client program x schedule) on a deterministic fiber runtime; oracle = happens-before monitor + mask-chain/currency/monotonicity invariants over the read history",
